@@ -2,7 +2,7 @@
 import json
 from lib import vlib
 
-RULE = ("programs: call depth 0..MaxDepth x 13 failure kinds (expressions mentioning a literal constant - folded by the compiler -, throw, operator, builtin, wrong argument count, index, not callable, for-in over a non-iterable, slice, selector, index / selector assignment) x "
+RULE = ("programs: call depth 0..MaxDepth x 18 failure kinds (expressions mentioning a literal constant - folded by the compiler -, expressions whose leftmost operand the optimizer makes from a unary operator and a literal, throw, operator, builtin, wrong argument count, index, not callable, for-in over a non-iterable, slice, selector, index / selector assignment) x "
         "call styles (statement, assignment, condition of if / for / ?:, argument, index expression, inside an expression of a return, closure returned from a function, direct recursion, mutual recursion through two call sites, failing statement inside nested blocks, error leaving through finally blocks, "
         "through one call site, function of an imported source module) x k in {0,1,3} prepended blank lines, one statement per line; "
         "expected trace = call-statement line of every active function, outermost first, then the failing line; replayed with the "
